@@ -4,6 +4,7 @@ import Lm.Inv.ThpoolC
 import Lm.Inv.ThpoolC3
 import Lm.Inv.ThpoolC4
 import Lm.Inv.ThpoolD
+import Lm.Inv.ThpoolE
 /-! The invariant holds initially, is preserved by every transition, hence holds in every reachable state. -/
 namespace Lm.Thpool
 variable {s s' : State} {l : Label}
@@ -45,6 +46,7 @@ theorem inv_step (hi : Inv s) (hp : pre s l = true) (h : step s l = some s') : I
   pendPc := pendPc_step hi h
   pendNone := pendNone_step hi h
   pendSome := pendSome_step hi h
+  pendSelf := pendSelf_step hi h
   lenRel := lenRel_step hi h
   workersLe := workersLe_step hi h
   createRoom := createRoom_step hi h
@@ -81,6 +83,9 @@ theorem inv_step (hi : Inv s) (hp : pre s l = true) (h : step s l = some s') : I
   runningInv := runningInv_step hi h
   pendingInv := pendingInv_step hi h
   preEnqInv := preEnqInv_step hi h
+  nPreEnqInv := nPreEnqInv_step hi h
+  pastChkNo := pastChkNo_step hi h
+  newQuiet := newQuiet_step hi h
   discPhase := discPhase_step hi h
   waitAlive := waitAlive_step hi h
   mainWait := mainWait_step hi h
